@@ -99,7 +99,10 @@ def spec_modules_for(prop, spec_dir):
     for n in sorted(os.listdir(spec_dir)):
         if not n.endswith('.rs'):
             continue
-        head = open(os.path.join(spec_dir, n)).read(2000)
+        text = open(os.path.join(spec_dir, n)).read()
+        if 'verus!' not in text:
+            continue  # re-export only module: nothing for Verus to verify (and it rejects an empty module filter)
+        head = text[:2000]
         m = re.search(r'//@ props=(\S+)', head)
         if not m or m.group(1) == '*' or prop in m.group(1).split(','):
             mods.append(n[:-3])
@@ -157,25 +160,94 @@ def main():
     engine.ensure_deps()
     spec_dir = os.path.join(VERIF, 'spec')
     contracts_dir = os.path.join(VERIF, 'contracts')
-    scratch, index = engine.snapshot_and_annotate(contracts_dir, spec_dir)
+    only = os.environ.get('VERIF_ONLY')
+    specs = os.environ.get('VERIF_SPECS')
+    BASE_VC = ['error', 'constants', 'utils', 'types']
+    BASE_SPEC = ['verif_extern', 'verif_spec', 'verif_types', 'verif_prelude', 'spec_poly1305', 'spec_aead', 'spec_curve',
+                 'spec_hash', 'spec_cores']
     evidence_path = os.path.join(EVID, prop + '.json')
-    try:
-        rc = decide(prop, tier, seed, cfg, scratch, index, spec_dir, contracts_dir, evidence_path, t0)
-    finally:
-        shutil.rmtree(scratch, ignore_errors=True)
+    # stale replay files of this property
+    if os.path.isdir(REPLAY_OUT):
+        for n in os.listdir(REPLAY_OUT):
+            if n.startswith(prop + '-'):
+                os.remove(os.path.join(REPLAY_OUT, n))
+    kw = dict(only=(BASE_VC + only.split(',')) if only else None,
+              specs=(BASE_SPEC + specs.split(',')) if specs else None)
+    annotate.DEGRADE = {}
+    rc = 2
+    for attempt in range(4):
+        scratch, index = engine.snapshot_and_annotate(contracts_dir, spec_dir, **kw)
+        try:
+            res = prerun(prop, cfg, scratch, index, spec_dir, seed)
+            # units whose spliced text does not compile any more (moved anchors, changed signatures): confine them
+            verdicts, glob = engine.classify(index, res, scratch)
+            broken = [u for u in index['units'] if any(e['kind'] == 'other' for e in verdicts[u['uid']]['errors'])]
+            if broken and attempt < 3 and not res.get('json', {}).get('verification-results', {}).get('verified'):
+                for u in broken:
+                    annotate.DEGRADE[u['ident']] = u.get('degraded', 0) + 1
+                continue
+            rc = decide(prop, tier, seed, cfg, scratch, index, spec_dir, contracts_dir, evidence_path, t0, res)
+            break
+        finally:
+            shutil.rmtree(scratch, ignore_errors=True)
     sys.exit(rc)
 
 
-def decide(prop, tier, seed, cfg, scratch, index, spec_dir, contracts_dir, evidence_path, t0):
+def modules_for(prop, index, spec_dir):
+    units = [u for u in index['units'] if prop in u['props']]
+    bottoms = [b for b in index['bottoms'] if prop in b['props']]
+    files = sorted(set(u['file'] for u in units) | set(b['file'] for b in bottoms))
+    return [engine.module_of(f) for f in files] + [m for m in spec_modules_for(prop, spec_dir)
+                                                   if m in index.get('spec_modules', [])]
+
+
+def prerun(prop, cfg, scratch, index, spec_dir, seed):
+    return engine.run_verus(scratch, modules=modules_for(prop, index, spec_dir), rlimit=cfg.get('rlimit', 30),
+                            seed=(seed if seed else None))
+
+
+_FILE_LINES = {}
+
+
+def clause_props(scratch, unit, err):
+    """Properties a failed obligation speaks for. A contract clause may be tagged in the sidecar by a preceding comment line
+    `// props: C17` (applies to the clauses that follow, up to the next tag); an untagged clause speaks for every property
+    of its unit. Verifier-generated safety obligations (overflow, bounds, unwrap, callee preconditions) speak for C04 when
+    the unit belongs to C04 (totality), otherwise for every property of the unit."""
+    allp = list(unit['props'])
+    msg = err['message']
+    if 'postcondition' not in msg and 'invariant' not in msg:
+        return ['C04'] if 'C04' in allp else allp
+    line = err.get('clause_line')
+    if not line:
+        return allp
+    path = os.path.join(scratch, err.get('file') or unit['file'])
+    if path not in _FILE_LINES:
+        try:
+            _FILE_LINES[path] = open(path).read().split('\n')
+        except Exception:
+            _FILE_LINES[path] = []
+    lines = _FILE_LINES[path]
+    lo = unit['range'][2] if unit.get('range') else 1
+    i = min(line, len(lines)) - 1
+    while i >= lo - 1 and i >= 0:
+        m = re.match(r'\s*// props: (.*)$', lines[i])
+        if m:
+            tagged = [p for p in re.split(r'[ ,]+', m.group(1).strip()) if p]
+            return [p for p in tagged if p in allp] or allp
+        if re.match(r'\s*(ensures|requires)\s*$', lines[i]):
+            break
+        i -= 1
+    return allp
+
+
+def decide(prop, tier, seed, cfg, scratch, index, spec_dir, contracts_dir, evidence_path, t0, res):
     units = [u for u in index['units'] if prop in u['props']]
     bottoms = [b for b in index['bottoms'] if prop in b['props'] or not b['props']]
     lost = [l for l in index['lost'] if prop in l['props'] or not l['props']]
-    files = sorted(set(u['file'] for u in units) | set(b['file'] for b in bottoms if prop in b['props']))
-    modules = [engine.module_of(f) for f in files] + spec_modules_for(prop, spec_dir)
+    modules = modules_for(prop, index, spec_dir)
     rlimit = cfg.get('rlimit', 30)
-    runs = []
-    res = engine.run_verus(scratch, modules=modules, rlimit=rlimit, seed=(seed if seed else None))
-    runs.append(res)
+    runs = [res]
     verdicts, global_errors = engine.classify(index, res, scratch)
     fb = engine.function_breakdown(res)
     known, fixed = load_known()
@@ -186,10 +258,28 @@ def decide(prop, tier, seed, cfg, scratch, index, spec_dir, contracts_dir, evide
             assumed.append(u)
             continue
         v = verdicts[u['uid']]
-        if v['verdict'] == 'discharged':
+        if u.get('degraded', 0) > 0:
+            # its anchors/spliced text no longer fit the code: never counted as discharged, never as refuted
+            v['verdict'] = 'undecided'
+            v['errors'].append({'kind': 'undecided', 'message': 'proof text no longer fits this function (%s)'
+                                % (u.get('degrade_reason') or 'spliced text failed to compile'), 'rendered': ''})
+            undecided.append(u)
+        elif v['verdict'] == 'discharged':
             proved.append(u)
         elif v['verdict'] == 'failed':
-            failed.append(u)
+            # only the obligations that speak for THIS property count against it
+            mine = [e for e in v['errors'] if e['kind'] == 'failed' and prop in clause_props(scratch, u, e)]
+            other = [e for e in v['errors'] if e['kind'] != 'failed']
+            if mine:
+                v['errors'] = mine + other
+                failed.append(u)
+            elif other:
+                undecided.append(u)
+            else:
+                v['foreign_failures'] = [e['message'] + ': ' + (e.get('clause') or '')[:120] for e in v['errors']]
+                v['errors'] = []
+                v['verdict'] = 'discharged'
+                proved.append(u)
         else:
             undecided.append(u)
     bottom_bad = [b for b in bottoms if verdicts[b['uid']]['verdict'] != 'discharged']
@@ -265,11 +355,21 @@ def decide(prop, tier, seed, cfg, scratch, index, spec_dir, contracts_dir, evide
         seen.add(key)
         print('KNOWN-FINDING: property=%s %s [%s :: %s]' % (prop, k.get('what', e['message']), u['file'], u['path']))
 
+    # "held" needs positive confirmation from the verifier, never the mere absence of attributable diagnostics
+    # rc 1 is acceptable only when every error diagnostic was attributed to some unit (then units without errors are
+    # verified: Verus reports per function); an unattributed error makes everything undecided
+    verifier_ok = (bool(vres.get('success')) and res['rc'] == 0 and vres.get('errors', 1) == 0) or (
+        res['rc'] == 1 and res.get('json') is not None and not global_errors and n_verified > 0)
+    only_known = bool(known_hits) and not violations and not undecided
     status = 'held'
     if violations:
         status = 'violation'
-    elif hard_global or undecided or lost or bottom_bad or res['rc'] not in (0, 1) or (not proved and not known_hits):
+    elif hard_global or undecided or lost or bottom_bad or (not proved and not known_hits):
         status = 'undecided'
+    elif not verifier_ok and not only_known:
+        status = 'undecided'
+        hard_global.append({'kind': 'other', 'message': 'verifier did not report success (rc=%s) although no diagnostic could be '
+                            'attributed to a unit' % res['rc'], 'rendered': res['raw_err'][-2000:]})
     if status == 'undecided':
         # fallback: only a refutation that replays on the real code may turn "undecided" into a violation
         witness = run_witness(prop, tier, seed, [])
